@@ -75,14 +75,28 @@ impl GdsParser {
 //|         (r is Ok && !(old(self).nxt is Mag) && !(old(self).nxt is Angle)) ==> r->Ok_0.mag is None && r->Ok_0.angle is None && *final(self) == *old(self),
 //|         (r is Ok && old(self).nxt is Mag) ==> r->Ok_0.mag is Some,
 //|         (r is Ok && old(self).nxt is Angle) ==> r->Ok_0.angle is Some,
+//|         // the magnification / angle are those of the MAG / ANGLE records consumed (the last of each)
+//|         r is Ok ==> exists|tr: Seq<GdsRecord>| #[trigger] strans_fold(tr, r->Ok_0),
+//@   before /^        loop \{$/
+//|         let ghost mut tr: Seq<GdsRecord> = Seq::empty();
 //@   loop 1
 //|             invariant pwf(*self), pm(*self) <= pm(*old(self)), self.rdr.source.data@ == old(self).rdr.source.data@,
-//|                 strans_flags_ok(s, d0, d1),
+//|                 strans_flags_ok(s, d0, d1), strans_fold(tr, s),
 //|                 (!(old(self).nxt is Mag) && !(old(self).nxt is Angle)) ==> (s.mag is None && s.angle is None && *self == *old(self)),
 //|                 old(self).nxt is Mag ==> (s.mag is Some || *self == *old(self)),
 //|                 old(self).nxt is Angle ==> (s.angle is Some || *self == *old(self)),
-//|             ensures !(self.nxt is Mag), !(self.nxt is Angle),
+//|             ensures !(self.nxt is Mag), !(self.nxt is Angle), strans_fold(tr, s),
 //|             decreases pm(*self),
+//@   before /match self\.peek\(\) \{/
+//|             let ghost s0 = s; let ghost r0 = self.nxt;
+//@   loopend 1
+//|             proof {
+//|                 let tr1 = tr.push(r0);
+//|                 assert(tr1.drop_last() =~= tr); assert(tr1.last() == r0);
+//|                 assert(strans_step(s0, r0, s));
+//|                 assert(strans_fold(tr1, s));
+//|                 tr = tr1;
+//|             }
 //@ end
 //@ fn gds21/src/read.rs :: impl<R> GdsParser<R> :: fn parse_datetime
 //@   ret r
@@ -119,6 +133,13 @@ pub fn vp_sub6(d: &[i16; 12], a: usize) -> (r: [i16; 6])
     ensures forall|i: int| 0 <= i < 6 ==> #[trigger] r@[i] == d@[a + i],
 { d[a..a + 6].try_into().unwrap() }
 
+pub open spec fn strans_step(s0: GdsStrans, r: GdsRecord, s1: GdsStrans) -> bool {
+    match r { GdsRecord::Mag(d) => s1 == (GdsStrans { mag: Some(d), ..s0 }), GdsRecord::Angle(d) => s1 == (GdsStrans { angle: Some(d), ..s0 }), _ => false }
+}
+pub open spec fn strans_fold(tr: Seq<GdsRecord>, s: GdsStrans) -> bool decreases tr.len() {
+    if tr.len() == 0 { s.mag is None && s.angle is None }
+    else { exists|s0: GdsStrans| strans_fold(tr.drop_last(), s0) && #[trigger] strans_step(s0, tr.last(), s) }
+}
 // ---- what parse_struct and parse_lib return (trace-based functional postconditions) ----
 /// element `e` is of the kind its opening record announces
 pub open spec fn kind_ok(e: GdsElement, open: GdsRecord) -> bool {
